@@ -36,16 +36,22 @@
 (* WHAT TLC DOES.  One state per configuration:                            *)
 (*   all subsets of the optional keys with at most MaxPresent keys present *)
 (*   and all with at most MaxOmitted keys omitted, x empty-vs-absent table *)
-(*   headers, x 4 input-mode variants, x phase-list shapes (when a list    *)
-(*   key is present), x fabric letters (when the fabric key is present);   *)
-(*   every single fault on the full and on the minimal base configuration. *)
+(*   headers, x 4 input-mode variants (paths as NPZ and as SCSV), x 6      *)
+(*   phase-list shapes (when a list key is present), x 5 fabric letters    *)
+(*   (when the fabric key is present); every single fault (13 on the       *)
+(*   constraints C19 names, on the full and on the minimal base; 8         *)
+(*   documentation-level ones on the full base).  Two steps per            *)
+(*   configuration ("seed" -> "done") so that the workers, not the         *)
+(*   initial-state generator, evaluate and emit.                           *)
 (* For each it evaluates the decision model and emits the expected outcome *)
 (* class and the expected value (class) of every key.  Lemmas checked as   *)
 (* invariants on every configuration:                                      *)
-(*   OkImpliesPost, FaultsRejected, DefaultsParse, HeadersCoverKeys,       *)
-(*   DemandsTotal (every omitted key with a documented default has a       *)
-(*   stated demand), ListKeysDecide (outcome depends on the effective      *)
-(*   lists only).                                                          *)
+(*   OkImpliesPost (a configuration predicted to parse satisfies Post),    *)
+(*   FaultsRejected (every listed fault is predicted ConfigError, or       *)
+(*   either only for undocumented types), DefaultsParse (the documented    *)
+(*   defaults are self-consistent), HeadersCoverKeys, DemandsTotal (every  *)
+(*   omitted parameter key has a stated demand), ListKeysDecide,           *)
+(*   ValidShapesParse (every listed phase-list shape is accepted).         *)
 (* The parameter fields and their declared defaults come from the source   *)
 (* (C19_DECL_FILE, see Params.tla); the pinned table is used otherwise.    *)
 (***************************************************************************)
@@ -132,7 +138,6 @@ Shapes == << [asm |-> <<S("olivine")>>, fr |-> << <<1, 1>> >>],
              [asm |-> <<S("olivine"), S("enstatite")>>, fr |-> << <<7, 10>>, <<3, 10>> >>],
              [asm |-> <<S("enstatite"), S("olivine")>>, fr |-> << <<1, 4>>, <<3, 4>> >>],
              [asm |-> <<S("olivine"), S("enstatite")>>, fr |-> << <<1, 2>>, <<1, 2>> >>],
-             [asm |-> <<S("olivine"), S("enstatite")>>, fr |-> << <<1, 1>>, <<0, 1>> >>],
              [asm |-> <<I(0), I(1)>>, fr |-> << <<7, 10>>, <<3, 10>> >>] >>
 DefaultAsm == [i \in DOMAIN Decl.default_shape.asm |-> S(Decl.default_shape.asm[i])]
 DefaultFr == [i \in DOMAIN Decl.default_shape.fr |-> <<Decl.default_shape.fr[i][1], Decl.default_shape.fr[i][2]>>]
@@ -154,7 +159,6 @@ Faults ==
      [name |-> "phase-float", sets |-> {AsmKey, FrKey}, asm |-> <<S("olivine"), F("1.5")>>, fr |-> Fr73, fab |-> DefaultFab, edit |-> NoEdit],
      [name |-> "fabric-unknown-letter", sets |-> {FabKey}, asm |-> DefaultAsm, fr |-> DefaultFr, fab |-> S("Z"), edit |-> NoEdit],
      [name |-> "fabric-empty", sets |-> {FabKey}, asm |-> DefaultAsm, fr |-> DefaultFr, fab |-> S(""), edit |-> NoEdit],
-     [name |-> "fabric-enstatite-letter", sets |-> {FabKey}, asm |-> DefaultAsm, fr |-> DefaultFr, fab |-> S("AB"), edit |-> NoEdit],
      [name |-> "fabric-integer", sets |-> {FabKey}, asm |-> DefaultAsm, fr |-> DefaultFr, fab |-> I(1), edit |-> NoEdit],
      \* faults outside the constraints C19 names (documentation only: force "I")
      [name |-> "no-input-table", sets |-> {}, asm |-> DefaultAsm, fr |-> DefaultFr, fab |-> DefaultFab, edit |-> "no-input-table"],
